@@ -25,6 +25,7 @@ DECIDED = [
     'R7: offset-bearing code attributes (co_exceptiontable) are not passed verbatim to the rebuilt code object when instructions were inserted; R8: operands are not read / written as single bytes without EXTENDED_ARG handling (both currently violated: known findings).',
     'R6: the patcher recurses into nested code objects (co_consts) before any early return that depends on the outer code object\'s names.',
     'R9: Config.build / Config.__init__ evaluated: the evaluation context the caller passes (with its symbols) is the one that evaluates - a fresh EvalContext only when none is given; sources and options reach the builder unchanged.',
+    "R10: the !eval pipeline on traces: leading lines compiled in exec mode and executed, last line compiled in eval mode and evaluated, both patched and in one namespace, exec first; eval's value is the result; a published module carries the namespace.",
 ]
 UNDECIDED = ['correctness of the bytecode translation for all programs and CPython versions (jump fix-ups, exception tables, EXTENDED_ARG);', 'f-string normalisation; numerical results.']
 TRUSTED = ['dis.py of the interpreter that runs the check (same /venv interpreter the repo runs on)']
@@ -517,11 +518,14 @@ def check(repo, run, tier):
     g(r6, repo, run)
     g(unitrules.config_entry, repo, run, 'C12.R9')
     g(unitrules.eval_context_init, repo, run, 'C12.R1')
+    g(unitrules.eval_pipeline, repo, run, 'C12.R10')
     g.done()
 
 
 def mutants(repo):
     return [
+        Mutant('leading-lines-not-executed', lambda r: in_func(r, 'EvalNode.ayns.on_evaluate_impl', "            exec(exec_code_patched, gbls)\n", ""), ['C12.R10']),
+        Mutant('published-module-empty', lambda r: in_func(r, 'EvalNode.ayns.on_evaluate_impl', "            eval_node_module.__dict__.update(gbls)\n", ""), ['C12.R10']),
         Mutant('publish-condition-negated', lambda r: in_func(r, 'EvalNode.ayns.on_evaluate_impl', "if len(lines) > 1 and self.persistent_namespace and not from_module:", "if not (len(lines) > 1 and self.persistent_namespace and not from_module):"), ['C12.R1b']),
         Mutant('caller-symbols-dropped', lambda r: in_func(r, 'EvalContext.__init__', "            self._eval_symbols.update(eval_symbols)\n", "            pass\n"), ['C12.R1']),
         Mutant('build-drops-caller-context', lambda r: in_func(r, 'Config.build', "return Config(b.build(), eval_ctx=eval_ctx)", "return Config(b.build())"), ['C12.R9']),
